@@ -3,7 +3,7 @@
 # Confirms in a scratch worktree (outside /repo and /verif): builds, suite passes with patch, demo fails with / passes without.
 set -u
 SRC="$1"; NAME="$2"
-WT=/tmp/wt/confirm
+WT=${CONFIRM_WT:-/tmp/wt/confirm}
 export CARGO_NET_OFFLINE=true
 if [ ! -d "$WT" ]; then git -C /repo worktree add -q --detach "$WT" HEAD || exit 9; fi
 cd "$WT" && git reset -q --hard && git checkout -q --detach "$(git -C /repo rev-parse HEAD)" && git reset -q --hard && git clean -fdq -e target
